@@ -1,6 +1,7 @@
 //! The crate's real proxy() between two real sockets over scripted connections.
 //! case: ID proxy FRONT BACK [cap] [prepoll] / fattach C PT [id=HEX] / battach C PT [id=HEX] / ffeed C HEX / bfeed C HEX
 //!                                  / feof C / beof C / settle / fwire C / bwire C / cwire / status
+//!                                  / [fb]wmode C MODE / [fb]wplan C PLAN / cwmode MODE / cwplan PLAN   (capture connection)
 use crate::pipes::*;
 use crate::sock::{with_rt, AnySock};
 use crate::util::*;
@@ -115,6 +116,16 @@ pub fn run(args: &[&str]) -> String {
                     "status" => {
                         settle().await;
                         out.push(format!("status={}", if handle.is_finished() { "ended" } else { "running" }));
+                    }
+                    "cwmode" => {
+                        if let Some(sd) = capside.as_ref() {
+                            sd.conns["c"].1.set_mode(crate::sock::parse_wmode(t[1]));
+                        }
+                    }
+                    "cwplan" => {
+                        if let Some(sd) = capside.as_ref() {
+                            sd.conns["c"].1.plan(crate::sock::parse_wplan(t[1]));
+                        }
                     }
                     "cwire" => {
                         let b = capside.as_ref().map(|s| s.conns["c"].1.take_written()).unwrap_or_default();
